@@ -167,6 +167,14 @@ func (sys System) typeOf(r rune) uint8 {
 		return tVS
 		// TODO: is + also tVS in Maven?
 	}
+	if sys == Maven && r > ' ' && r != utf8.RuneError {
+		// Maven cuts a range specification at brackets and commas only. Every
+		// other character belongs to a version, and any string is a Maven
+		// version (1.0~1, ${revision}), as Maven.Parse has it.
+		if r >= 0x7F || byteType[r] == tXX || (byteType[r] == tOP && r != ',') {
+			return tVS
+		}
+	}
 	if r == '+' && sys == RubyGems {
 		return tXX
 	}
